@@ -37,7 +37,7 @@ TypeToks(t) ==
       [] t.k = "arr"  -> <<P("[")>> \o TypeToks(t.t) \o <<P(","), IntTok(t.n), P("]")>>
       [] t.k = "dyn"  -> <<P("[")>> \o TypeToks(t.t) \o <<P("]")>>
       [] t.k = "opt"  -> <<W("Optional"), P("[")>> \o TypeToks(t.t) \o <<P("]")>>
-      [] t.k \in {"struct", "enum"} -> <<W(t.name)>>
+      [] t.k \in {"struct", "enum", "ref"} -> <<W(t.name)>>      \* "ref": a user type name not yet resolved
 
 RECURSIVE ValueToks(_), ValuesToks(_)
 ValueToks(v) ==
@@ -113,6 +113,7 @@ DeclToks(d, style) ==
       [] d.kind = "service" -> PrService(d)
       [] d.kind = "device"  -> PrDevice(d)
       [] d.kind = "mod"     -> PrMod(d)
+      [] d.kind = "garbage" -> <<W("struct"), W("Broken"), P("{"), W("q"), P("@")>>     \* a truncated declaration
 
 FileToks(decls, style) == PrPreamble \o Flat([i \in 1..Len(decls) |-> DeclToks(decls[i], style)])
 
